@@ -555,6 +555,15 @@ func (channel *Channel) removeConsumer(cTag string) {
 	if cmr, ok := channel.consumers[cTag]; ok {
 		cmr.Stop()
 		delete(channel.consumers, cmr.Tag())
+		// the deliveries of this consumer that are still unsettled no longer belong to the tag: a consumer started
+		// later under the same tag has a prefetch window of its own, which they were never charged to
+		channel.ackLock.Lock()
+		for _, uMsg := range channel.ackStore {
+			if uMsg.cTag == cTag {
+				uMsg.cTag = ""
+			}
+		}
+		channel.ackLock.Unlock()
 	}
 }
 
